@@ -46,7 +46,8 @@ FLOORS = {'*': {**{f'{v}:{o}': 30 for v in ('jsonschema', 'pydantic') for o in (
                 'pydantic:coerced': 30, 'pydantic:coercion-off-accepted': 30, 'excluded-parameter': 100, 'context-parameter': 100,
                 'client-sets-excluded': 30, 'client-sets-context': 30, 'style:view': 100, 'style:async': 100, 'passing:named': 300,
                 'passing:positional': 300, 'refusal-data-checked': 300, 'pydantic:live-exception-in-error': 5,
-                'jsonschema:required-or-additional': 50, 'no-arguments-call': 50, 'twin-registration-calls': 100}}
+                'jsonschema:required-or-additional': 50, 'no-arguments-call': 50, 'twin-registration-calls': 100,
+                'pydantic:default-none-on-non-optional': 50}}
 
 ABSENT = '__absent__'
 
@@ -138,14 +139,15 @@ ANNOT = {
               ('1.5', 'coerce', lambda v: v == 1.5), (None, 'bad', None)],
     'Optional[int]': [(None, 'ok', lambda v: v is None), (1, 'ok', lambda v: v == 1), ('x', 'bad', None), ([], 'bad', None)],
     'List[int]': [([1, 2], 'ok', lambda v: v == [1, 2]), (['1'], 'coerce', lambda v: v == [1]), (['x'], 'bad', None), (1, 'bad', None),
-                  ([], 'ok', lambda v: v == [])],
-    'Dict[str, int]': [({'a': 1}, 'ok', lambda v: v == {'a': 1}), ({'a': 'x'}, 'bad', None), ([], 'bad', None), ({}, 'ok', lambda v: v == {})],
+                  ([], 'ok', lambda v: v == []), (None, 'bad', None)],
+    'Dict[str, int]': [({'a': 1}, 'ok', lambda v: v == {'a': 1}), ({'a': 'x'}, 'bad', None), ([], 'bad', None), ({}, 'ok', lambda v: v == {}),
+                       (None, 'bad', None)],
     'Item': [({'a': 1}, 'coerce', lambda v: _eq_item(v, 1, 'd')), ({'a': 2, 'b': 'z'}, 'coerce', lambda v: _eq_item(v, 2, 'z')),
-             ({'b': 'x'}, 'bad', None), (1, 'bad', None), ({'a': 'nope'}, 'bad', None)],
-    'Color': [('red', 'coerce', lambda v: v is Color.RED), ('green', 'bad', None), (1, 'bad', None)],
-    'Annotated[int, Field(gt=0)]': [(5, 'ok', lambda v: v == 5), (0, 'bad', None), (-3, 'bad', None), ('x', 'bad', None)],
-    'PositiveInt': [(2, 'ok', lambda v: v == 2), (0, 'bad', None), (-1, 'bad', None)],
-    'Annotated[str, Field(min_length=2)]': [('ab', 'ok', lambda v: v == 'ab'), ('a', 'bad', None), (1, 'bad', None)],
+             ({'b': 'x'}, 'bad', None), (1, 'bad', None), ({'a': 'nope'}, 'bad', None), (None, 'bad', None)],
+    'Color': [('red', 'coerce', lambda v: v is Color.RED), ('green', 'bad', None), (1, 'bad', None), (None, 'bad', None)],
+    'Annotated[int, Field(gt=0)]': [(5, 'ok', lambda v: v == 5), (0, 'bad', None), (-3, 'bad', None), ('x', 'bad', None), (None, 'bad', None)],
+    'PositiveInt': [(2, 'ok', lambda v: v == 2), (0, 'bad', None), (-1, 'bad', None), (None, 'bad', None)],
+    'Annotated[str, Field(min_length=2)]': [('ab', 'ok', lambda v: v == 'ab'), ('a', 'bad', None), (1, 'bad', None), (None, 'bad', None)],
     'Picky': [({'n': 1}, 'coerce', lambda v: isinstance(v, Picky) and v.n == 1), ({'n': -1}, 'bad-live-exception', None)],
 }
 
@@ -170,7 +172,9 @@ def render(params, with_ctx, skip, style, annotate):
         s = name
         if annotate and ann:
             s += f': {ann}'
-        if dflt:
+        if dflt == 'none':
+            s += ' = None'          # the common `limit: int = None`: omitting it is fine, an explicit null is not an int
+        elif dflt:
             s += f" = {'None' if (ann or '').startswith('Optional') else repr('d_' + name)}" if annotate and ann else f" = {'d_' + name!r}"
         parts.append(s)
     if skip:
@@ -442,6 +446,12 @@ def run_pd(ctx, params, with_ctx, skip, style, coerce):
                 sub.remove(rng.randrange(len(plist)))
             cases.append(({names[i]: entries[i][0] for i in sub}, [entries[i] for i in sub]))
     cases.append(({**{n: ANNOT[p[3]][0][0] for n, p in zip(names, plist)}, 'extra': 1}, None))
+    for i, p in enumerate(plist):
+        if p[2] == 'none':
+            ctx.hit('pydantic:default-none-on-non-optional')
+            cases.append(({n: (None if n == p[0] else ANNOT[q[3]][0][0]) for n, q in zip(names, plist)}, None))
+            if p[1] == 'PK':
+                cases.append(([None if j == i else ANNOT[q[3]][0][0] for j, q in enumerate(plist[:i + 1])], None))
     if skip:
         cases.append(({**{n: ANNOT[p[3]][0][0] for n, p in zip(names, plist)}, 'skip': 'evil'}, None))
     if with_ctx:
@@ -495,7 +505,7 @@ def run_pd(ctx, params, with_ctx, skip, style, coerce):
                         problem = f'coercion-off:argument-altered:{p[3]}'
                     ctx.hit('pydantic:coercion-off-accepted')
             else:
-                want = None if p[3].startswith('Optional') else 'd_' + name
+                want = None if (p[3].startswith('Optional') or p[2] == 'none') else 'd_' + name
                 if got != want:
                     problem = 'default-not-applied'
         if skip and rec.get('skip') != 'skip-default':
@@ -546,7 +556,10 @@ def gen(ctx):
                 a = rng.choice(anns)
                 if dflt and (a in ('Item', 'Color', 'Picky', 'List[int]', 'Dict[str, int]', 'int', 'float', 'PositiveInt')
                              or a.startswith('Annotated')):
-                    a = rng.choice(['str', 'Optional[int]'])       # defaults must conform to the annotation
+                    if rng.random() < 0.4:
+                        dflt = 'none'          # ... or be the customary None on a non-Optional annotation
+                    else:
+                        a = rng.choice(['str', 'Optional[int]'])       # defaults must conform to the annotation
                 plist.append([n, kind, dflt, a])
             yield 'pd', dict(params=plist, with_ctx=bool(k % 2), skip=bool((k // 2) % 2),
                              style=('def', 'async', 'view', 'def')[k % 4], coerce=bool((k // 4) % 2))
@@ -556,6 +569,8 @@ def gen(ctx):
             for style in ('def', 'view'):
                 yield 'pd', dict(params=[['a', 'PK', False, a]], with_ctx=False, skip=False, style=style, coerce=coerce)
                 yield 'pd', dict(params=[['a', 'PK', False, a], ['b', 'KO', True, 'str']], with_ctx=True, skip=True, style=style, coerce=coerce)
+                if not a.startswith('Optional'):
+                    yield 'pd', dict(params=[['a', 'PK', 'none', a], ['b', 'KO', 'none', a]], with_ctx=False, skip=False, style=style, coerce=coerce)
     # schemas whose object-level constraints are stricter than the signature
     for style in ('def', 'async', 'view'):
         yield 'js', dict(params=[['a', 'PK', True], ['b', 'PK', True]], frags=[0, 1], required=['a'], additional=False,
